@@ -59,15 +59,25 @@ pub struct ProbeWriter {
     pub data: Vec<u8>,
     chunk: usize,
     fail_at: i64,
+    toggle: bool,
 }
 impl Write for ProbeWriter {
     fn write(&mut self, buf: &[u8]) -> io::Result<usize> {
+        // chunk sizes >= 1000 select the "interrupting" writer: every other call reports ErrorKind::Interrupted
+        // (a transient condition that write_all retries), the remaining calls accept chunk - 1000 bytes (0 = all)
+        if self.chunk >= 1000 {
+            self.toggle = !self.toggle;
+            if self.toggle {
+                return Err(io::Error::new(io::ErrorKind::Interrupted, "injected interrupt"));
+            }
+        }
         if self.fail_at >= 0 && self.data.len() as i64 >= self.fail_at {
             return Err(io::Error::new(io::ErrorKind::Other, "injected write fault"));
         }
         let mut n = buf.len();
-        if self.chunk > 0 {
-            n = n.min(self.chunk);
+        let c = if self.chunk >= 1000 { self.chunk - 1000 } else { self.chunk };
+        if c > 0 {
+            n = n.min(c);
         }
         if self.fail_at >= 0 {
             n = n.min(self.fail_at as usize - self.data.len());
@@ -81,7 +91,7 @@ impl Write for ProbeWriter {
 }
 
 fn ser<T: SerDes>(v: &T, compressed: bool, chunk: usize, fail_at: i64) -> Out {
-    let mut w = ProbeWriter { data: vec![], chunk, fail_at };
+    let mut w = ProbeWriter { data: vec![], chunk, fail_at, toggle: false };
     match v.serialize(&mut w, compressed) {
         Ok(()) => Out::Ok(vec![Val::Bytes(w.data)]),
         Err(_) => Out::Err(format!("io:{}", w.data.len())),
